@@ -81,6 +81,13 @@ func (s *refStore) DeleteRange(min, max uint64) error {
 		s.failNext = ""
 		return errInjected
 	}
+	if s.failNext == "delete-partial" {
+		// a backend that removes in batches: the first index of the range is
+		// gone when the error is reported
+		s.failNext = ""
+		delete(s.logs, min)
+		return errInjected
+	}
 	for i := range s.logs {
 		if i >= min && i <= max {
 			delete(s.logs, i)
@@ -96,6 +103,7 @@ type c19op struct {
 	Min  uint64
 	Max  uint64
 	Fail bool
+	Part bool // with Fail on a delete: the backend has removed part of the range when it reports the error
 }
 
 func (o c19op) String() string {
@@ -107,6 +115,9 @@ func (o c19op) String() string {
 	case "store":
 		return fmt.Sprintf("store%v/%v%s", o.Idx, o.Var, f)
 	case "delete":
+		if o.Part {
+			f += "(partial)"
+		}
 		return fmt.Sprintf("del[%d,%d]%s", o.Min, o.Max, f)
 	}
 	return fmt.Sprintf("get%v%s", o.Idx, f)
@@ -157,6 +168,9 @@ func (p *c19pair) apply(op c19op) string {
 	case "delete":
 		if op.Fail {
 			p.cb.failNext, p.bare.failNext = "delete", "delete"
+			if op.Part {
+				p.cb.failNext, p.bare.failNext = "delete-partial", "delete-partial"
+			}
 		}
 		e1, e2 := p.cache.DeleteRange(op.Min, op.Max), p.bare.DeleteRange(op.Min, op.Max)
 		p.cb.failNext, p.bare.failNext = "", ""
@@ -262,6 +276,7 @@ func c19ExhaustiveOps(maxIdx uint64) []c19op {
 	ops = append(ops, c19op{Kind: "delete", Min: 3, Max: 2}) // inverted: no-op on the backend
 	ops = append(ops, c19op{Kind: "store", Idx: []uint64{2}, Var: []byte{1}, Fail: true})
 	ops = append(ops, c19op{Kind: "delete", Min: 1, Max: 2, Fail: true})
+	ops = append(ops, c19op{Kind: "delete", Min: 2, Max: 3, Fail: true, Part: true})
 	ops = append(ops, c19op{Kind: "get", Idx: []uint64{1, 2, 3}, Fail: true})
 	return ops
 }
@@ -364,7 +379,7 @@ func c19GenOp(t *rapid.T) c19op {
 	case "delete":
 		lo := rapid.Uint64Range(0, 13).Draw(t, "lo")
 		hi := rapid.Uint64Range(0, 13).Draw(t, "hi")
-		return c19op{Kind: "delete", Min: lo, Max: hi, Fail: fail}
+		return c19op{Kind: "delete", Min: lo, Max: hi, Fail: fail, Part: fail && rapid.Bool().Draw(t, "partial")}
 	}
 	return c19op{Kind: "get", Idx: []uint64{rapid.Uint64Range(0, 13).Draw(t, "i")}, Fail: fail}
 }
